@@ -11,8 +11,11 @@ SPEC = dict(
              'reference-list containers plus Cell / Slice / Builder objects naming them; one transition per API call saying what it '
              'allocates, aliases and mutates), (c08_separation) the separation invariant: a container a Slice or Builder can write to is '
              'reachable from no other object; (c08_immutable) hash, data bits, references and serialisation of every cell are the same '
-             'after any further history; (c08_history_independent) the result of every call is a function of the VALUES of its arguments, '
-             'not of the calls made before. Mutation through public attributes by USER code (cell.bits.append(1)) is outside the model; '
+             'after any further history, and the cached hash is always the hash of the current content; (c08_isolated, '
+             'c08_refines_value_semantics, c08_history_independent) a call changes the value of no object but its own self and its '
+             'result is a function of the VALUES of its arguments, not of the calls made before - two arbitrary histories reaching '
+             'equal argument values give equal results; (c08_observe_pure, c08_inputs_untouched) hash / to_boc / order are read-only '
+             'and idempotent and the plain array / list a cell was constructed from is never written. Mutation through public attributes by USER code (cell.bits.append(1)) is outside the model; '
              'the model covers the aliasing that library calls create. The tie between model and code is alias-graph correspondence '
              '(bijection between model container ids and Python object identities, contents, offsets, hashes) after every step of '
              'sampled random interleavings - sampled, not all inputs - plus a library-only frame / idempotence / alias-exploit / '
